@@ -31,6 +31,7 @@ impl ChecksumService for TestSvc {
     fn calc(&self, buf: &BytesMut) -> Checksum {
         let mut h: u32 = 7;
         for c in buf.iter() { h = (h.wrapping_mul(131).wrapping_add(*c as u32).wrapping_add(1)) & 0x7fffffff; }
+        if h & 7 == 0 { h = 0; }
         match self.kind {
             "u8" => Checksum::U8(h as u8), "u16" => Checksum::U16(h as u16), "u32" => Checksum::U32(h), "u64" => Checksum::U64(h as u64),
             "i8" => Checksum::I8(h as i8), "i16" => Checksum::I16(h as i16), "i32" => Checksum::I32(h as i32), _ => Checksum::I64(h as i64),
@@ -256,9 +257,9 @@ func BuildRust(p *dsl.Program, files map[string][]byte, dir string, withTests bo
 		args := append([]string{"--test", "--crate-name", "gen", "-o", filepath.Join(dir, "emitted_tests"), filepath.Join(src, "lib.rs")}, ext...)
 		r := cli.Run(dir, buildTimeout, nil, nil, "rustc", args...)
 		if r.TimedOut {
-		panic("harness: toolchain timed out (machine overloaded?)")
-	}
-	if r.Exit != 0 {
+			panic("harness: toolchain timed out (machine overloaded?)")
+		}
+		if r.Exit != 0 {
 			return nil, &BuildError{"rust", "emitted-tests", string(r.Stderr)}
 		}
 	}
